@@ -472,6 +472,13 @@ def sanitize_nillable(ct, seen, optional=False):
     def qname_typed(t):
         return isinstance(t, SimpleT) and (t.base == "QName" or (t.list_of is not None and t.list_of.base == "QName") or any(u.base == "QName" for u in (t.union_of or [])))
 
+    def qname_content(c):  # simple content of a QName type, here or in a base type
+        while c is not None:
+            if c.simple_base is not None and qname_typed(c.simple_base):
+                return True
+            c = c.base
+        return False
+
     def walk(g, opt):
         opt = opt or g.min == 0 or g.kind == "choice"
         for x in g.items:
@@ -481,9 +488,10 @@ def sanitize_nillable(ct, seen, optional=False):
                 t = x.type
                 if x.nillable and (opt or mixed or x.min == 0 or x.default is not None or x.fixed is not None or not isinstance(t, SimpleT)):
                     x.nillable = False  # (complex content that happens to be empty is written back as nil: C01's open finding nillable-field-object-without-content)
-                if mixed and qname_typed(t):
+                if mixed and (qname_typed(t) or (isinstance(t, ComplexT) and qname_content(t))):
                     x.type = SimpleT(None, "string")
                     x.default = x.fixed = None
+                    t = x.type
                 if isinstance(t, ComplexT) and t.name is None:
                     sanitize_nillable(t, seen)
 
@@ -961,6 +969,20 @@ class DocGen:
         finally:
             self.depth -= 1
 
+    def captures_tail(self, el, decl):
+        """Text after a child whose own type is mixed or has a wildcard ends up inside that child (open known
+        finding C02/tail-after-wildcard-child-moves-into-the-child, probe in vf/props/c02.py): not generated."""
+        t = decl.type
+        if not isinstance(t, ComplexT):
+            return False
+        xt = el.get(f"{{{XSI}}}type")
+        types = [t] + list(self.R.subtypes(t)) if xt else [t]
+        for ct in types:
+            for c in self.R.chain(ct):
+                if c.mixed or (c.content is not None and any(isinstance(p, AnyP) for p in iter_particles(c.content))):
+                    return True
+        return False
+
     def group(self, parent, g: Group, owner_ns, mixed):
         rng = self.rng
         for _ in range(self.count(g.min, g.max)):
@@ -993,7 +1015,7 @@ class DocGen:
             for _ in range(n):
                 ch = etree.SubElement(parent, self.R.el_qname(x, owner_ns))
                 self.fill(ch, x, owner_ns)
-                if mixed and rng.random() < 0.4:
+                if mixed and rng.random() < 0.4 and not self.captures_tail(ch, x):
                     ch.tail = rng.choice(["tail text", " t "])
 
 
